@@ -284,6 +284,16 @@ def deIndex (skips : List Bool) (i : Nat) : Nat := ((skips.take i).filter (fun s
 /-- the number `Serialize` writes for the variant declared at position `i` -/
 def serIndex (_skips : List Bool) (i : Nat) : Nat := i
 
+/-! ### when the type generator hands out a schema
+
+`Tracer::trace_simple_type::<T>` explores every variant of `T` itself but only the first variant of an enum nested
+in `T` (serde-reflection 0.4.0 trace.rs / de.rs: one new variant per visit); `Tracer::registry()` refuses while any
+enum is incomplete (`Error::MissingVariants`), and `TypeGen::ensure_registry` (crux_core/src/typegen.rs:558-577)
+passes the refusal on (`TypeGenError::Generation`). So an app whose types hold an enum with more than one variant
+that was not registered on its own gets no schema. -/
+def typegenRefuses (variants : Nat) (registeredAlone : Bool) : Bool :=
+  !registeredAlone && decide (1 < variants)
+
 /-! ### the observation of one correspondence case (engine `codec`) -/
 
 inductive Kind where
